@@ -280,9 +280,13 @@ theorem leftShift_exact (a : Dc) (k : Nat) (hk1 : 1 ≤ k) (hk : k ≤ 60) (hwf 
   push_cast at hq
   have hexp : a.dp - (a.d.length : Int) = (a.dp + (cheatDelta k a.d : Int) - ((all.take bufLen).length : Int)) - ((all.drop bufLen).length : Int) := by
     omega
+  generalize he1 : a.dp + (cheatDelta k a.d : Int) - ((all.take bufLen).length : Int) = e1 at hexp ⊢
   rw [hexp, zpow_sub₀ (by norm_num : (10 : ℚ) ≠ 0), zpow_natCast]
   have h10 : (10 : ℚ) ^ (all.drop bufLen).length ≠ 0 := by positivity
+  generalize (10 : ℚ) ^ e1 = X
+  have e : (valOf 10 a.d : ℚ) * (X / (10 : ℚ) ^ (all.drop bufLen).length) * (2 : ℚ) ^ k
+      = ((valOf 10 a.d : ℚ) * (2 : ℚ) ^ k) * X / (10 : ℚ) ^ (all.drop bufLen).length := by ring
+  rw [e, hq]
   field_simp
-  linarith
 
 end C03
